@@ -79,6 +79,7 @@ func mul(a, b *big.Int) *big.Int       { return new(big.Int).Mul(a, b) }
 
 // detRand is a deterministic byte stream (SHA-512 in counter mode over a seed).
 type detRand struct {
+	mu   sync.Mutex
 	seed []byte
 	ctr  uint64
 	buf  []byte
@@ -87,6 +88,8 @@ type detRand struct {
 func newDetRand(seed string) *detRand { return &detRand{seed: []byte(seed)} }
 
 func (d *detRand) Read(p []byte) (int, error) {
+	d.mu.Lock()
+	defer d.mu.Unlock()
 	for i := range p {
 		if len(d.buf) == 0 {
 			h := sha512sum(append(append([]byte{}, d.seed...), byte(d.ctr), byte(d.ctr>>8), byte(d.ctr>>16), byte(d.ctr>>24)))
